@@ -504,7 +504,7 @@ impl SpannedExpr {
             Expr::Concat(ref left, ref right) => {
                 if let WireWidth::Bits(left_width) = left.get_width_and_check(widths, constants)? {
                     if let WireWidth::Bits(right_width) = right.get_width_and_check(widths, constants)? {
-                        if left_width + right_width <= 128 {
+                        if (left_width as u16) + (right_width as u16) <= 128 {
                             Ok(WireWidth::Bits(left_width + right_width))
                         } else {
                             Err(Error::WireTooWide(self.clone()))
